@@ -47,9 +47,20 @@ ItemFails(kind, got, want, alt) ==
     ELSE UNION {LET g == got[CHOOSE j \in 1..Len(got) : Id(got[j]) = Id(want[k])] IN
                 {F("doc.parsed." \o kind \o "." \o f, [index |-> k, value |-> want[k][f]]) :
                     f \in {f \in ItemFields(kind) : g[f] # want[k][f] /\ g[f] # alt[k][f]}} : k \in 1..Len(want)}
+\* A helper comes back with its arguments if the text form can carry them (ArgsCarried); where
+\* it cannot (a lone empty argument, blanks around one) an unknown helper comes back with what
+\* the text form makes of them, and of a typed helper only the kind is demanded.
+HelperFails(got, want) ==
+    IF Len(got) # Len(want) THEN {F("doc.parsed.helpers.count", Len(want))}
+    ELSE {F("doc.parsed.helpers", [index |-> k, n |-> want[k].n, a |-> ReadArgs(want[k].a)]) :
+            k \in {k \in 1..Len(want) :
+                    \/ got[k].n # want[k].n \/ got[k].known # want[k].known
+                    \/ IF ArgsCarried(want[k].a) THEN got[k].a # want[k].a \/ got[k].v # want[k].v
+                       ELSE ~want[k].known /\ got[k].a # ReadArgs(want[k].a)}}
 ParsedFails2(got, want, alt) ==
     UNION {{F("doc.parsed." \o f, want[f]) :
-                f \in {f \in {"cls", "kind", "alias", "bases", "helpers", "desc", "res_set", "res"} : got[f] # want[f]}},
+                f \in {f \in {"cls", "kind", "alias", "bases", "desc", "res_set", "res"} : got[f] # want[f]}},
+           HelperFails(got.helpers, want.helpers),
            ItemFails("kv", got.kvs, want.kvs, alt.kvs), ItemFails("in", got.ins, want.ins, alt.ins),
            ItemFails("out", got.outs, want.outs, alt.outs)}
 ParsedFails(got, want) == ParsedFails2(got, want, want)
@@ -66,7 +77,9 @@ EntFails(r) ==
     IF Len(r.err) >= 6 /\ SubSeq(r.err, 1, 6) = "export" THEN {F("doc.export", "no error")} ELSE
     \* the original syntax cannot express a backslash: such definitions are outside what
     \* custom_syntax=False is asked to bring back
-    IF ~cs /\ ~PlainSafe(r.orig) THEN {} ELSE
+    \* ... but whatever it writes, its own reader must accept
+    IF ~cs /\ ~PlainSafe(r.orig)
+    THEN (IF r.err # "" THEN {F("doc.parse", [want |-> "no error", near |-> Near(r, ExportLines(r.orig, cs, ls))])} ELSE {}) ELSE
     UNION {
         IF r.err # "" THEN {F("doc.parse", [want |-> "no error", near |-> Near(r, ExportLines(r.orig, cs, ls))])}
         ELSE ParsedFails2(r.parsed, ExportParse(r.orig, cs, ls), ExportParseAlt(r.orig, cs, ls)),
